@@ -25,7 +25,7 @@ pub fn spec() -> Spec {
         case_cap_s: |t| t.pick(900, 14400),
         rule: "one case per (input D-set, renumbering); each case is explored under EVERY schedule of the hash-order choice point in simplify::network_cut with at most B deviations from 'first candidate' (G3), every schedule executed twice. Inputs: (a) pseudo_toroidal_cover of every admissible 3-dimensional symbol of size <= M that has one and of the 20 corpus symbols; (b) manifold tilings with finite fundamental group: universal covers and central quotients of the Coxeter groups [3,3,3], [4,3,3] ([3,4,3] thorough) built by the reference Todd-Coxeter, every entry of covers(s, |G|) for {3,3,3} ({4,3,3} thorough) that the reference model accepts as a branch-free manifold tiling, and the manifold entries of covers(s, |G|) for EVERY 3-dimensional symbol of size <= 2 with spherical tiles and vertex figures (branching 1..6) whose orbifold group has order <= 200 (thorough 1200) by the reference Todd-Coxeter (lens spaces and other space forms); (c) each input under 9 systematic renumberings. Oracle: input validity by the reference model (complete, branch-free, commuting, every tile and vertex figure loopless, bipartite, V-E+F = 2); a returned D-set is valid in the same sense; for (b) and corpus covers a connected result has the same H1 (textbook presentation + invariant factors) and the same number of subgroup classes of index 2, 3 (crate presentation + coset_tables, validated by C09/C12) as the input; on pseudo-toroidal covers no panic, a connected result has one tile, one vertex and no edge/face/tile of degree 2; for the corpus the isomorphism class of the minimal quotient of the result (reference model) is the same for every renumbering and schedule. Non-trivial = simplify changes the input.",
         assumptions: &["the choice hook explores exactly the behaviours production code can show: every hash order makes one of the sorted candidates first, and every candidate is first for some order", "pseudo_toroidal_cover / covers supply inputs only; every input is validated by the reference model before use"],
-        bounds: |t| json!({"admissible_max_size": t.pick(3, 4), "choice_deviation_bound": 1, "choice_deviation_bound_2_on_inputs_up_to_chambers": t.pick(json!(24), json!("72, and 96 for the corpus covers as given")), "renumberings": t.pick(json!({"corpus": "identity + reverse at bound 1", "other pseudo-toroidal covers": "identity at bound 1, reverse at bound 0", "finite": "identity + shuffle at bound 1"}), json!(9)), "determinism_replay_every_nth_schedule": t.pick(5, 1), "subgroup_class_index": 3}),
+        bounds: |t| json!({"admissible_max_size": t.pick(3, 4), "choice_deviation_bound": 1, "choice_deviation_bound_2_on_inputs_up_to_chambers": t.pick(json!(24), json!("72, and 96 for the corpus covers as given")), "renumberings": t.pick(json!({"corpus": "identity + reverse at bound 1", "other pseudo-toroidal covers": "identity at bound 1, reverse at bound 0", "finite": "identity + shuffle at bound 1"}), json!(9)), "determinism_replay_every_nth_schedule": t.pick(5, 1), "subgroup_class_index": 3, "torus_cover_family": {"what": "2-sheeted covers of the pseudo-toroidal cover of every corpus symbol, default schedule", "max_chambers": t.pick(800, 2400)}}),
     }
 }
 
@@ -61,6 +61,9 @@ fn subgroup_profile(s: &RS) -> Option<Vec<usize>> {
 struct Input {
     name: String,
     s: RS,
+    /// (H1, subgroup classes per index 1..3) known by construction (covers of the 3-torus): used instead of
+    /// computing them on inputs of many hundred chambers
+    known: Option<(Vec<i128>, Vec<usize>)>,
     /// pseudo-toroidal cover of an admissible symbol
     ptc: bool,
     /// group known to be finite, or cover of a corpus symbol: topology must be preserved
@@ -123,6 +126,10 @@ fn reference_key(inp: &Input) -> Option<RS> {
 }
 
 fn check_unit(ctx: &mut Ctx, inp: &Input, rname: &str, p: &[usize], ref_key: &Option<RS>) {
+    check_unit_bound(ctx, inp, rname, p, ref_key, None)
+}
+
+fn check_unit_bound(ctx: &mut Ctx, inp: &Input, rname: &str, p: &[usize], ref_key: &Option<RS>, force_bound: Option<usize>) {
     let t = inp.s.relabel(p);
     ctx.announce(&json!({"input": inp.name, "renumbering": rname, "chambers": t.n}));
     let weight = t.n as u64;
@@ -130,11 +137,12 @@ fn check_unit(ctx: &mut Ctx, inp: &Input, rname: &str, p: &[usize], ref_key: &Op
         ctx.add("inputs_rejected_by_reference_model", 1);
         return;
     }
-    let h1_in = if inp.rigid { h1(&t) } else { None };
-    let prof_in = if inp.rigid { subgroup_profile(&t) } else { None };
+    let h1_in = if let Some(k) = &inp.known { Some(k.0.clone()) } else if inp.rigid { h1(&t) } else { None };
+    let prof_in = if let Some(k) = &inp.known { Some(k.1.clone()) } else if inp.rigid { subgroup_profile(&t) } else { None };
     // quick tier: the second renumbering of a non-corpus pseudo-toroidal cover is run under the default schedule only
     let b2max = std::env::var("VERIF_C16_B2MAX").ok().and_then(|v| v.parse::<usize>().ok()).unwrap_or(ctx.tier.pick(24, 72));
     let bound = if t.n <= b2max || (ctx.tier.is_thorough() && t.n <= 96 && inp.corpus && rname == "identity") { 2 } else if !ctx.tier.is_thorough() && inp.ptc && !inp.corpus && rname != "identity" { 0 } else { 1 };
+    let bound = force_bound.unwrap_or(bound);
     let mut results: Vec<(Vec<usize>, SimpOut)> = vec![];
     let verify_every = ctx.tier.pick(5, 1);
     let stats = g3::explore_with(bound, verify_every, &|| run_simplify(&t), &mut |run| {
@@ -236,18 +244,18 @@ fn inputs(ctx: &mut Ctx) -> Vec<Input> {
     let mut out = vec![];
     for (text, s) in corpus() {
         if let Some(c) = ptc_of(&s) {
-            out.push(Input { name: format!("pseudo-toroidal cover of corpus symbol {}", text), s: c, ptc: true, rigid: true, corpus: true });
+            out.push(Input { name: format!("pseudo-toroidal cover of corpus symbol {}", text), s: c, ptc: true, rigid: true, corpus: true, known: None });
         }
     }
     for n in 1..=tier.pick(3, 4) {
         for s in admissible_symbols(n) {
             if let Some(c) = ptc_of(&s) {
-                out.push(Input { name: format!("pseudo-toroidal cover of {}", s.describe()), s: c, ptc: true, rigid: false, corpus: false });
+                out.push(Input { name: format!("pseudo-toroidal cover of {}", s.describe()), s: c, ptc: true, rigid: false, corpus: false, known: None });
             }
         }
     }
     for (name, s) in coxeter_manifolds(tier) {
-        out.push(Input { name: format!("Coxeter manifold {}", name), s, ptc: false, rigid: true, corpus: false });
+        out.push(Input { name: format!("Coxeter manifold {}", name), s, ptc: false, rigid: true, corpus: false, known: None });
     }
     // covers() of the regular polytope symbols that are manifolds
     let polytopes: Vec<(&str, usize)> = if tier.is_thorough() { vec![("<1.1:1 3:1,1,1,1:3,3,3>", 120), ("<1.1:1 3:1,1,1,1:4,3,3>", 384)] } else { vec![("<1.1:1 3:1,1,1,1:3,3,3>", 120)] };
@@ -256,7 +264,7 @@ fn inputs(ctx: &mut Ctx) -> Vec<Input> {
             for c in cs {
                 if let Some(r) = from_dsym(&c) {
                     if valid_manifold_tiling(&r).is_ok() {
-                        out.push(Input { name: format!("{}-chamber manifold cover of {}", r.n, text), s: r, ptc: false, rigid: true, corpus: false });
+                        out.push(Input { name: format!("{}-chamber manifold cover of {}", r.n, text), s: r, ptc: false, rigid: true, corpus: false, known: None });
                     }
                 }
             }
@@ -315,6 +323,51 @@ fn run(ctx: &mut Ctx) {
         finite_family(ctx);
         ctx.add("cpu_us_finite_family", t0.elapsed().as_micros() as i64);
     }
+    if ctx.nviolations() == 0 {
+        let t0 = std::time::Instant::now();
+        torus_cover_family(ctx);
+        ctx.add("cpu_us_torus_cover_family", t0.elapsed().as_micros() as i64);
+    }
+}
+
+/// family (d): the 2-sheeted covers of the pseudo-toroidal cover of every corpus symbol (3-tori again, of twice
+/// the size: 200 to 1 200 chambers, larger than anything else the check feeds into simplify), under the default
+/// schedule, as covers() numbers them [and reversed].  H1 = Z^3 and 1, 7, 13 classes of subgroups of index 1, 2,
+/// 3 are known by construction.  Sharded by cover.
+fn torus_cover_family(ctx: &mut Ctx) {
+    let tier = ctx.tier;
+    let cap = tier.pick(800usize, 2400usize);
+    for (text, s) in corpus() {
+        let c = match ptc_of(&s) {
+            Some(c) => c,
+            None => continue,
+        };
+        if 2 * c.n > cap {
+            continue;
+        }
+        let list = ctx.supply("covers", || covers(&to_partial_dsym(&c), 2).iter().map(|x| from_dsym(x)).collect::<Vec<_>>());
+        for (k, d) in list.into_iter().flatten().enumerate() {
+            if d.n <= c.n || !ctx.take() {
+                continue;
+            }
+            if valid_manifold_tiling(&d).is_err() || !d.is_connected() {
+                ctx.add("torus_covers_rejected_by_reference_model", 1);
+                continue;
+            }
+            ctx.add("torus_covers", 1);
+            ctx.max("largest_input", d.n as i64);
+            let inp = Input { name: format!("2-sheeted cover of the pseudo-toroidal cover of corpus symbol {} (number {} of covers(.., 2))", text, k), s: d, ptc: true, rigid: true, corpus: false, known: Some((vec![0, 0, 0], vec![1, 7, 13])) };
+            let id: Vec<usize> = (0..inp.s.n).collect();
+            check_unit_bound(ctx, &inp, "identity", &id, &None, Some(0));
+            if tier.is_thorough() && ctx.nviolations() == 0 {
+                let rev: Vec<usize> = (0..inp.s.n).rev().collect();
+                check_unit_bound(ctx, &inp, "reverse", &rev, &None, Some(0));
+            }
+            if ctx.nviolations() > 0 {
+                return;
+            }
+        }
+    }
 }
 
 /// family (b'): manifold covers of every small 3-dimensional symbol with spherical tiles and vertex figures
@@ -353,7 +406,7 @@ fn finite_family(ctx: &mut Ctx) {
                     if let Some(r) = from_dsym(&c) {
                         if r.n >= 4 && valid_manifold_tiling(&r).is_ok() && r.is_connected() {
                             ctx.add("finite_manifold_covers", 1);
-                            let inp = Input { name: format!("{}-chamber manifold cover of the finite-group symbol {}", r.n, b.describe()), s: r, ptc: false, rigid: true, corpus: false };
+                            let inp = Input { name: format!("{}-chamber manifold cover of the finite-group symbol {}", r.n, b.describe()), s: r, ptc: false, rigid: true, corpus: false, known: None };
                             let id: Vec<usize> = (0..inp.s.n).collect();
                             check_unit(ctx, &inp, "identity", &id, &None);
                             if tier.is_thorough() {
@@ -381,7 +434,8 @@ fn replay(ctx: &mut Ctx, case: &Value) {
     let name = case["input"].as_str().unwrap_or("replay").to_string();
     let corpus = name.contains("corpus");
     let ptc = name.contains("pseudo-toroidal");
-    let inp = Input { name, s: s.clone(), ptc, rigid: corpus || !ptc, corpus };
+    let torus = name.contains("2-sheeted cover of the pseudo-toroidal cover");
+    let inp = Input { name, s: s.clone(), ptc, rigid: corpus || !ptc || torus, corpus, known: if torus { Some((vec![0, 0, 0], vec![1, 7, 13])) } else { None } };
     if let Some(sch) = case["schedule"].as_array() {
         let schedule: Vec<usize> = sch.iter().map(|x| x.as_u64().unwrap_or(0) as usize).collect();
         rust_dsymbols::verif_hooks::set_schedule(schedule.clone());
